@@ -8,6 +8,7 @@ from lib.flat import Config, showv
 from lib.mir import AnchorMissing
 from lib.ast import walk
 from . import tok_common
+from .guardlib import gval, comparisons, lt_true, ge_true
 
 MANIFEST = {
     "text": "Translation validation of tables against independent oracles: 2231 named references vs CPython's html.entities.html5, generated PHF key/value set vs names+prefix closure, C1 table vs cp1252, numeric value function of both tokenizers vs the WHATWG numeric table over an exact integer partition; longest-match bookkeeping compared in normal form with a reviewed reference. A matched name ending in ';' is always decoded and the legacy attribute exception is tested only afterwards, on the character following the match in name_buf (R14.6); the in-attribute flag is true in all three attribute value states and only there (R14.7).",
@@ -245,7 +246,7 @@ def r14_4b(ctx, which, rule="R14.4"):
         if "assign self.num" not in names:
             continue
         n += 1
-        over = [g for g, v in pc["guards"].items() if "> 1114111" in g]
+        over = [g for a, op, b, v, g in comparisons(pc["guards"]) if op == "<" and a == "1114111"]  # 0x10FFFF < num
         sets_flag = [(a, args) for a, args in pc["actions"] if a == "assign self.num_too_big"]
         g_over = any(pc["guards"][g] for g in over)
         ok = True
@@ -278,7 +279,7 @@ def semicolon_rule(ctx, rule):
         exc = [k for k, v in g.items() if v and ("matches (true,_,Some('='))" in k or "matches (true,_,Some(_))" in k)]
         names = [a[0] for a in c["actions"]]
         unconsume = "unconsume_name" in names
-        matched = any(v and "self.name_match matches Some((_,_))" in k for k, v in g.items()) and g.get("(self.name_len > 0)") is True
+        matched = any(v and "self.name_match matches Some((_,_))" in k for k, v in g.items()) and gval(g, "(self.name_len > 0)") is True
         if not matched:
             continue
         n += 1
